@@ -96,6 +96,8 @@ def build(d, memo):
         return Tiles(tuple(d["base"]), tuple(d["tile"]))
     if t == "vtiles":
         return VariableSizedTiles((tuple(d["cy"]), tuple(d["cx"])))
+    if t == "gbvtiles":
+        return GeoboxTiles(GeoBox((6, 6), _affine(d["aff"]), _crs(d["crs"], memo)), (tuple(d["cy"]), tuple(d["cx"])))
     if t == "gbtiles":
         return GeoboxTiles(GeoBox(tuple(d["shape"]), _affine(d["aff"]), _crs(d["crs"], memo)), tuple(d["tile"]))
     if t == "xy":
